@@ -22,11 +22,11 @@ def recordTimeline (ev : Event) (attempt sleep : Nat) (tags : Tags) : M Unit :=
       klass := tags.klass, stop := tags.stop, cause := tags.cause } :: w.timeline }
 
 def askMetric (ev : Event) (attempt sleep : Nat) (tags : Tags) : M Unit := do
-  let _ ← ask (.metric ev attempt sleep tags)
+  let _ ← askHook (.metric ev attempt sleep tags)
   pure ()
 
 def askLog (ev : Event) (attempt sleep : Nat) (tags : Tags) (ra : Option Int) : M Unit := do
-  let _ ← ask (.log ev attempt sleep tags ra)
+  let _ ← askHook (.log ev attempt sleep tags ra)
   pure ()
 
 /-- The metric hook installed on `_RetryState`: with a timeline, `_resolve_timeline`'s composite. -/
@@ -324,7 +324,7 @@ def callBeforeSleep (cfg : Cfg) (ctx : BackoffCtx) (sleep : Nat) : M Unit :=
   match cfg.beforeSleep with
   | none => pure ()
   | some lvl =>
-    tryCatch (do let _ ← ask (.beforeSleep lvl ctx sleep); pure ()) swallowException
+    tryCatch (do let _ ← askHook (.beforeSleep lvl ctx sleep); pure ()) swallowException
 
 def callSleeper (cfg : Cfg) (sleep : Nat) : M Unit := do
   let _ ← ask (.sleeper cfg.sleeper sleep)
